@@ -413,10 +413,14 @@ pub fn fam_partial(r: &mut Rng) -> Vec<Prog> {
     let mut fs: Vec<(String, GTy)> = vec![];
     let labels = ["x", "y", "a"];
     for l in labels.iter().take(n) {
-        // gate (finding N14): a partial pattern on a partial-TYPED value narrows a union-typed
-        // field to its tuple variant; field types are leaves / unions of leaves here
+        // N14 (a partial pattern on a partial-TYPED value narrowed a union-typed field to its
+        // tuple variant) is repaired by cf8f770: a field may be a union with a labelled tuple
         let ft = if g.r.chance(2, 3) {
             g.leaf_ty()
+        } else if g.r.chance(1, 3) {
+            let a = g.leaf_ty();
+            let inner = g.leaf_ty();
+            GTy::Union(vec![GTy::Tup(Some("P".into()), vec![(Some(l.to_string()), inner)]), a])
         } else {
             let a = g.leaf_ty();
             let b = g.leaf_ty();
@@ -1180,11 +1184,11 @@ pub fn fam_sequence(r: &mut Rng) -> Vec<Prog> {
         }
     };
     let never_nil = |g: &mut G, k: usize| -> Node {
-        // gate (finding N17): a binding of a tuple literal (`y = Z[1]`) as the last chain of a
-        // branch CONDITION after a type match on a partial call's result loses the nil
-        match g.r.below(3) {
+        // a binding of a tuple literal (`y = Z[1]`) after a failable step: N17, repaired by 3c07a58
+        match g.r.below(4) {
             0 => t(&format!("y{k} = {}", 1 + k)),
             1 => t(&format!("{}", 7 + k)),
+            2 => t(&format!("y{k} = Z[{}]", 1 + k)),
             _ => t(&format!("y{k} = {} inc", k)),
         }
     };
